@@ -47,6 +47,7 @@ MENU = [
     ("not_a_module", "some_test", dict(y=[1, 2]), False),
     ("qartod", "speed_test", dict(suspect_threshold=1, fail_threshold=3), False),   # a real test name, but of another module
     ("argo", "speed_test", dict(suspect_threshold=1, fail_threshold=3), True),
+    ("other_pkg", "x_test", dict(a=1), False),
 ]
 WINDOWS = [None, dict(starting="2020-01-01T00:00:00", ending="2020-04-01T00:00:00"), dict(starting="2021-06-01T12:30:00"),
            dict(ending="2022-02-01T00:00:00"), dict(ending="2020-09-01T00:00:00", starting="2020-08-01T00:00:00")]  # ending only; ending written first
@@ -267,11 +268,52 @@ def check_path_reuse(case):
     return vs, True, tuple(obs), 0, len(case["asts"])
 
 
+def check_many_loads(case):
+    """history: a long-lived process parses one configuration after another (each dropped before the next is built);
+    every one of them must mean what its own text says"""
+    import gc
+    import importlib
+
+    from ioos_qc import config as cfgmod
+    from ioos_qc import utils
+
+    importlib.reload(utils)
+    cfgmod = importlib.reload(cfgmod)
+    vs = []
+    n = case["loads"]
+    obs = []
+    for k in range(n):
+        r = 1 + (k * 7 + k // 5) % 2 if case["regions"] else 0
+        w = (k * 3) % 5
+        ast = dict(contexts=[dict(window=w, region=r, streams={"v1": [k % 6], "v2": [(k + 2) % 6]}),
+                             dict(window=(w + 1) % 5, region=(3 - r) if r else 0, streams={"v1": [(k + 1) % 6]})], null="null")
+        d = concrete(ast, "contexts")
+        src = d if case["carrier"] == "dict" else (yaml_text(d) if case["carrier"] == "yaml" else json.dumps(d))
+        cfg = alpha.call(cfgmod.Config, src)
+        exp = canon(expected_calls(ast, "contexts"))
+        if isinstance(cfg, alpha.Raised):
+            vs.append(V(f"{PROP}|many-loads|carrier={case['carrier']}|symptom=raises:{cfg.name}", f"load #{k + 1} in one process raised {cfg.name}: {cfg.msg}", exp, repr(cfg)))
+            break
+        got = canon(observe(cfg))
+        if got != exp:
+            field = "region" if [json.loads(c)["region"] for c in got] != [json.loads(c)["region"] for c in exp] else "calls"
+            vs.append(V(f"{PROP}|many-loads|carrier={case['carrier']}|symptom=wrong-{field}-after-many-loads",
+                        f"configuration #{k + 1} parsed in one process does not mean what its text says ({field})", exp, got, size=k))
+            break
+        obs.append(hash(tuple(got)) & 0xFFFF)
+        del cfg, d, src
+        if k % 16 == 0:
+            gc.collect()
+    return vs, True, tuple(obs[:8]), 0, n
+
+
 def check_case(case):
     from ioos_qc.config import Config
 
     if "asts" in case:
         return check_path_reuse(case)
+    if "loads" in case:
+        return check_many_loads(case)
     ast, layout, carrier = case["ast"], case["layout"], case["carrier"]
     d = concrete(ast, layout)
     exp = expected_calls(ast, layout)
@@ -358,6 +400,10 @@ def asts(tier):
             yield dict(contexts=[dict(window=0, region=0, streams={"v1": a, "v2": b})], null="null")
     for a, b in (([8], [9]), ([9], [8]), ([8, 9], [0]), ([0], [8, 9]), ([8], [1, 9])):
         yield dict(contexts=[dict(window=0, region=0, streams={"v1": a, "v2": b})], null="null")
+    # one stream configured with tests of 4 and 5 different top-level modules (known and unknown ones)
+    for a in ([0, 4, 5, 7], [1, 4, 5, 7, 10], [0, 4, 7, 10], [5, 7, 10], [0, 1, 2, 3, 4, 5, 6, 7, 9, 10]):
+        yield dict(contexts=[dict(window=0, region=0, streams={"v1": a})], null="null")
+        yield dict(contexts=[dict(window=1, region=1, streams={"v1": a, "v2": [0]})], null="null")
     # one context with window / region
     for w in range(3):
         for r in range(3):
@@ -395,7 +441,8 @@ def asts(tier):
 def tasks(tier):
     n = sum(1 for _ in asts(tier))
     chunks = 64
-    return [("asts", tier, c, chunks) for c in range(chunks)] + [("reuse", fmt, k) for fmt in ("yaml", "json") for k in ("str", "Path")]
+    return [("asts", tier, c, chunks) for c in range(chunks)] + [("reuse", fmt, k) for fmt in ("yaml", "json") for k in ("str", "Path")] \
+        + [("many", carrier, regions) for carrier in ("dict", "yaml", "json") for regions in (True, False)]
 
 
 def _cleanup_tmp():
@@ -406,6 +453,9 @@ def _cleanup_tmp():
 
 
 def run_task(task, acc):
+    if task[0] == "many":
+        run_cases(acc, [dict(loads=n, carrier=task[1], regions=task[2]) for n in (40, 300)], check_case)
+        return
     if task[0] == "reuse":
         _, fmt, kind = task
         small = [dict(contexts=[dict(window=w, region=0, streams={"v1": a})], null="null") for w in (0, 1) for a in ([0], [1], [4], [0, 1], [2, 5])]
